@@ -276,7 +276,11 @@ func (r *Registry) Payload(tok int) any {
 		return v
 	}
 	var v any
-	switch tok % nPayloadKinds {
+	sel := tok % nPayloadKinds
+	if r.MixFlavour {
+		sel = (tok/1000*7 + tok) % nPayloadKinds // tokens are item*1000+attempt: every kind occurs at the first attempts of some item
+	}
+	switch sel {
 	case 0:
 		v = &payloadPtr{Tok: tok}
 	case 1:
